@@ -45,6 +45,7 @@ def eval_call(ex, e: ast.Call, st: State) -> SV:
     if isinstance(p, str):
         if p in ex.reg.by_func and p not in st.locals:
             return call_by_contract(ex, ex.reg.by_func[p], pos, kw, st, site=p)
+        ex.call_arg_src = ast.unparse(e.args[0]) if e.args else ''
         return builtin(ex, p, pos, kw, st)
     if p[0] == 'bound':
         return container_method(ex, p[1], p[2], pos, kw, st)
@@ -222,6 +223,25 @@ def builtin(ex, name, pos, kw, st: State) -> SV:
             t = fn(t, q.t if q.kind == 'str' else ex._must_str(q, st).t)
         return SV('str', t)
     if name == 'copy.deepcopy':
+        arg = pos[0] if pos else None
+        if arg is not None and arg.kind == 'ref' and arg.ty is not None and arg.ty.kind in ('list', 'dict') \
+                and arg.ty.elem is not None and arg.ty.elem.kind == 'obj':
+            # a container of objects: items are copied through their own __deepcopy__ / the memo (separate assumed contracts)
+            c = ex.reg.by_func.get(ex.contract.deepcopy_of.get(getattr(ex, 'call_arg_src', ''), 'deepcopy_refs'))
+            if c is None:
+                raise Unsupported('copy.deepcopy of a container of objects without assumed contract')
+            r = call_by_contract(ex, c, pos, kw, st, site='copy.deepcopy')
+            return sv_ref(v_a(r.t), arg.ty) if r.kind == 'val' else r
+        if arg is not None and arg.kind == 'ref' and arg.ty is not None and arg.ty.kind == 'obj' and ex.reg.method(arg.ty.cls, '__deepcopy__') is not None:
+            # an object with its own __deepcopy__: copy.deepcopy(x, memo) is x.__deepcopy__(memo) (which consults the memo
+            # itself) followed by the library's bookkeeping on the memo (assumed contract KEEP-ALIVE)
+            memo = pos[1] if len(pos) > 1 else kw.get('memo')
+            ka = ex.reg.by_func.get('deepcopy_keep_alive')
+            if memo is None or ka is None:
+                raise Unsupported('copy.deepcopy of an object without memo / KEEP-ALIVE contract')
+            r = call_by_contract(ex, ex.reg.method(arg.ty.cls, '__deepcopy__'), [arg, memo], {}, st, site='copy.deepcopy->__deepcopy__')
+            call_by_contract(ex, ka, [memo], {}, st, site='copy.deepcopy keep-alive')
+            return r
         c = ex.reg.by_func.get('deepcopy')
         if c is None:
             raise Unsupported('copy.deepcopy without assumed contract')
@@ -557,6 +577,13 @@ def call_by_contract(ex, c: Contract, pos, kw, st: State, site='') -> SV:
         ex.raise_exit(xs, exc, tag)
         st.assume(z3.Not(cf))
     # normal exit
+    import os as _os
+    call_canary = c.trusted and not ex.probing and bool(_os.environ.get('PYVC_CALL_CANARY'))
+    if call_canary:
+        # vacuity guard for ASSUMED contracts (thorough tier, mutation scans): the state right after the call must not be
+        # refutable unless the state right before it already is (dead code) — a contradictory assumed postcondition
+        # would discharge everything behind the call vacuously
+        ex.obligations.append(Obligation('%s/callcanary.before@%s' % (ex.fn.key, tag), list(st.pc), z3.BoolVal(False), 'canary', ex.fn.key))
     h_after = havoc(ex, st, c)
     ret_ty = c.returns
     if ret_ty is None or ret_ty.kind == 'none':
@@ -568,6 +595,8 @@ def call_by_contract(ex, c: Contract, pos, kw, st: State, site='') -> SV:
     post = CCtx(h_before, h_after, args, ghosts, result)
     for (nm, f) in c.ensures(post):
         st.assume(f)
+    if call_canary:
+        ex.obligations.append(Obligation('%s/callcanary.after@%s' % (ex.fn.key, tag), list(st.pc), z3.BoolVal(False), 'canary', ex.fn.key))
     hint = ex.contract.call_lemmas.get(c.short) if hasattr(ex.contract, 'call_lemmas') else None
     if hint is not None:
         lc = CCtx(h_before, h_after, args, ghosts, result, extra={'ex': ex, 'st': st, 'caller_h0': ex.h0, 'locals': st.locals,
